@@ -8,7 +8,7 @@ use std::ops::Bound;
 use std::ptr::NonNull;
 
 use any_vec::any_value::{
-    AnyValue, AnyValueCloneable, AnyValueMut, AnyValueRaw, AnyValueSizeless, AnyValueTypeless,
+    AnyValue, AnyValueCloneable, AnyValueMut, AnyValueRaw, AnyValueSizeless, AnyValueTypeless, AnyValueTypelessMut,
     AnyValueWrapper, Unknown,
 };
 use any_vec::mem::{Empty, Stack, StackN};
@@ -494,6 +494,60 @@ macro_rules! impl_kind {
                 out!("{}", show(&a, a.len()));
                 out!("{}", show(&b, b.len()));
                 out!("{}", show(&c, n));
+                // every other read-only way to look at the same elements has to agree with the three above
+                // (nothing here runs user code: no clone, no drop); a disagreement is logged as BAD4x
+                let bad = |code: u64, i: usize| reg::log(reg::EV_BAD, code, i as u64, 0);
+                reg::noscope(|| {
+                    let bytes = self.v.as_bytes();
+                    let sz = F::SIZE;
+                    let base = bytes.as_ptr() as usize;
+                    let addr_ok = |p: *const u8, i: usize| sz == 0 || p as usize == base + i * sz;
+                    for i in 0..n {
+                        match self.v.get(i) {
+                            Some(e) => {
+                                if !addr_ok(e.as_bytes().as_ptr(), i) || e.as_bytes().len() != sz { bad(40, i); }
+                                if e.value_typeid() != self.v.element_typeid() || e.size() != sz { bad(46, i); }
+                                if e.downcast_ref::<T>().map(|x| x as *const T as usize) != Some(e.as_bytes().as_ptr() as usize) { bad(44, i); }
+                                let e2 = e.clone();
+                                if e2.as_bytes().as_ptr() != e.as_bytes().as_ptr() { bad(46, i); }
+                            }
+                            None => bad(40, i),
+                        }
+                        let eu = unsafe { self.v.get_unchecked(i) };
+                        if !addr_ok(eu.as_bytes().as_ptr(), i) { bad(40, i); }
+                        if !addr_ok(self.v.at(i).as_bytes().as_ptr(), i) { bad(40, i); }
+                        let want = &tv.as_slice()[i] as *const T;
+                        if tv.get(i).map(|x| x as *const T) != Some(want) { bad(41, i); }
+                        if tv.at(i) as *const T != want { bad(41, i); }
+                        if unsafe { tv.get_unchecked(i) } as *const T != want { bad(41, i); }
+                    }
+                    if self.v.get(n).is_some() || self.v.get(n + 1).is_some() || self.v.get(usize::MAX).is_some() { bad(40, n); }
+                    if tv.get(n).is_some() || tv.get(n + 1).is_some() || tv.get(usize::MAX).is_some() { bad(41, n); }
+                    // borrowed iteration: `for e in &v`, exact size at every step, both ends
+                    let mut it = (&self.v).into_iter();
+                    let mut k = 0usize;
+                    loop {
+                        if it.len() != n - k || it.size_hint() != (n - k, Some(n - k)) { bad(43, k); }
+                        match it.next() { Some(e) => { if !addr_ok(e.as_bytes().as_ptr(), k) { bad(43, k); } k += 1; } None => break }
+                        if k > n { break; }
+                    }
+                    if k != n { bad(43, k); }
+                    let mut k = 0usize;
+                    for e in self.v.iter().rev() { if !addr_ok(e.as_bytes().as_ptr(), n - 1 - k) { bad(43, k); } k += 1; if k > n { break; } }
+                    if k != n { bad(43, k); }
+                    if tv.iter().count() != n || tv.iter().zip(tv.as_slice().iter()).any(|(x, y)| x as *const T != y as *const T) { bad(43, n); }
+                    // unchecked downcasts of the whole vector land on the same storage
+                    let tu = unsafe { self.v.downcast_ref_unchecked::<T>() };
+                    if tu.as_ptr() != tv.as_ptr() || tu.len() != tv.len() { bad(44, 0); }
+                    if sz != 0 && n > 0 && tv.as_ptr() as usize != base { bad(44, 1); }
+                    // scalar reports
+                    if self.v.is_empty() != (n == 0) || tv.is_empty() != (n == 0) || tv.len() != n || tv.capacity() != self.v.capacity()
+                        || tv.as_slice().len() != n || (sz != 0 && bytes.len() != n * sz) { bad(45, n); }
+                    if self.v.element_drop().is_some() != std::mem::needs_drop::<T>() { bad(49, 0); }
+                    // Debug output exists and does not touch the elements
+                    let d1 = format!("{:?}", self.v);
+                    if d1.is_empty() { bad(47, 0); }
+                });
             }
             fn views_t<F: Family, T: Elem>(&mut self) {
                 let base = self.v.as_bytes().as_ptr() as usize;
@@ -512,6 +566,39 @@ macro_rules! impl_kind {
                 out!("al{}", base % align);
                 out!("ts{}", if tp == base { 1 } else { 0 });
                 out!("tl{}", tl);
+                // the mutable ways to reach the same elements
+                let bad = |code: u64, i: usize| reg::log(reg::EV_BAD, code, i as u64, 0);
+                let n = self.v.len();
+                let sz = F::SIZE;
+                reg::noscope(|| {
+                    let addr_ok = |p: usize, i: usize| sz == 0 || p == base + i * sz;
+                    for i in 0..n {
+                        match self.v.get_mut(i) { Some(mut e) => if !addr_ok(e.as_bytes_mut().as_ptr() as usize, i) { bad(42, i); }, None => bad(42, i) }
+                        let p = { let mut e = unsafe { self.v.get_unchecked_mut(i) }; e.as_bytes_mut().as_ptr() as usize };
+                        if !addr_ok(p, i) { bad(42, i); }
+                        let p = { let mut e = self.v.at_mut(i); e.as_bytes_mut().as_ptr() as usize };
+                        if !addr_ok(p, i) { bad(42, i); }
+                    }
+                    if self.v.get_mut(n).is_some() || self.v.get_mut(n + 1).is_some() || self.v.get_mut(usize::MAX).is_some() { bad(42, n); }
+                    let mut k = 0usize;
+                    for mut e in self.v.iter_mut() { if !addr_ok(e.as_bytes_mut().as_ptr() as usize, k) { bad(42, k); } k += 1; if k > n { break; } }
+                    if k != n { bad(42, k); }
+                    let mut k = 0usize;
+                    for mut e in &mut self.v { if !addr_ok(e.as_bytes_mut().as_ptr() as usize, k) { bad(42, k); } k += 1; if k > n { break; } }
+                    if k != n { bad(42, k); }
+                    let tbase = { let mut tu = unsafe { self.v.downcast_mut_unchecked::<T>() }; tu.as_mut_ptr() as usize };
+                    let mut tv = self.v.downcast_mut::<T>().expect("harness: own type");
+                    if tv.as_mut_ptr() as usize != tbase || (sz != 0 && n > 0 && tbase != base) { bad(44, 2); }
+                    let sl = tv.as_mut_slice().as_mut_ptr() as usize;
+                    for i in 0..n {
+                        let want = sl + i * std::mem::size_of::<T>();
+                        if tv.get_mut(i).map(|x| x as *mut T as usize) != Some(want) { bad(41, i); }
+                        if tv.at_mut(i) as *mut T as usize != want { bad(41, i); }
+                        if unsafe { tv.get_unchecked_mut(i) } as *mut T as usize != want { bad(41, i); }
+                    }
+                    if tv.get_mut(n).is_some() || tv.get_mut(usize::MAX).is_some() { bad(41, n); }
+                    if tv.iter_mut().count() != n { bad(43, n); }
+                });
             }
             fn setlen_t<T: Elem>(&mut self, k: usize, typed: bool) {
                 let len = self.v.len();
